@@ -14,9 +14,10 @@
 (*    EmplaceResult              emplace returns (position of k, fresh?)   *)
 (*    MappedValueIsFirstInserted values seen through emplace / find / iter *)
 (*    Completes                  the operation returned (no crash / hang)  *)
-(* The first clause that fails is stored in bad (invariant Holds).         *)
+(* The first clause that fails in an execution is recorded in bad (with    *)
+(* execution id and line) and the rest of that execution is skipped.       *)
 (* The L2-lite chain is compared with the real chain (white box) only as   *)
-(* conformance of the steering model: ShapeConforms (drift, no verdict).   *)
+(* conformance of the steering model: recorded in drift (no verdict).      *)
 (*                                                                         *)
 (* Known defect H1 (findings/C18_default_constructed_chain.md): when an    *)
 (* observation deviates from ref' EXACTLY as the code-as-read predicts     *)
@@ -24,20 +25,22 @@
 (* chain) the facet is recorded in h1 with the id of the execution, the    *)
 (* reference follows the real object (resync) and validation continues, so *)
 (* that other clauses are still judged on the rest of the trace.  Any      *)
-(* other deviation sets bad.                                               *)
+(* other deviation goes to bad.                                            *)
 (***************************************************************************)
 EXTENDS HSet, Json, IOUtils
 
 Tr == ndJsonDeserialize(IOEnv.TRACE)
 
 VARIABLES l,      \* next line to explain
-          bad,    \* "" or the first violated clause
-          drift,  \* "" or "shape"
-          osz,    \* osz[i]: what size() of container i returned last (the code feeds it into clear/reserve/rehash/copy)
+          base,   \* line of the reset that started the current execution
           cur,    \* id of the current execution
-          h1      \* set of <<facet, execution id>> of the known defect H1 (first execution per facet)
+          skip,   \* a clause failed in the current execution: its remaining lines are not judged (the model lost the object)
+          bad,    \* set of <<"bad_" \o clause, execution id, line within the execution>>: first failure of each execution
+          drift,  \* set of <<"drift_shape", execution id, line>>: first L2-lite shape mismatch of each execution
+          osz,    \* osz[i]: what size() of container i returned last (the code feeds it into clear/reserve/rehash/copy)
+          h1      \* set of <<"h1_" \o facet, execution id, line>> of the known defect H1 (first execution per facet)
 
-tvars == <<vars, l, bad, drift, osz, cur, h1>>
+tvars == <<vars, l, base, cur, skip, bad, drift, osz, h1>>
 
 ToSet(s) == {s[j] : j \in 1..Len(s)}
 NoDup(s) == Cardinality(ToSet(s)) = Len(s)
@@ -48,11 +51,10 @@ Card(S) == Cardinality(S)
 TInit ==
   /\ l = 2 /\ Tr[1].k = "reset"
   /\ Init
-  /\ bad = "" /\ drift = ""
+  /\ base = 1 /\ cur = Tr[1].id /\ skip = FALSE
+  /\ bad = {} /\ drift = {} /\ h1 = {}
   /\ osz = [i \in Cons |-> 0]
-  /\ cur = Tr[1].id
-  /\ h1 = {}
-  /\ TLCSet(1, 1) /\ TLCSet(2, {})
+  /\ TLCSet(1, 1) /\ TLCSet(2, {}) /\ TLCSet(3, {}) /\ TLCSet(4, {})
 
 Fresh(e) ==
   /\ ref' = [i \in Cons |-> EmptyMap]
@@ -61,7 +63,7 @@ Fresh(e) ==
   /\ mf' = [i \in Cons |-> FALSE]
   /\ ev' = ""
   /\ osz' = [i \in Cons |-> 0]
-  /\ cur' = e.id
+  /\ cur' = e.id /\ base' = l /\ skip' = FALSE
   /\ UNCHANGED <<bad, drift, h1>>
 
 \* keys the rebuild (reserve / rehash / copy) of src delivers: all of them, unless the size observed on dst afterwards
@@ -123,21 +125,24 @@ Clause(e) ==
   ELSE IF ValueBad(e) THEN "MappedValueIsFirstInserted"
   ELSE ""
 
-AddH1(S, cond, facet) == IF cond /\ ~(\E p \in S : p[1] = facet) THEN S \cup {<<facet, cur>>} ELSE S
+Here == l - base
+AddH1(S, cond, facet) == IF cond /\ ~(\E p \in S : p[1] = "h1_" \o facet) THEN S \cup {<<"h1_" \o facet, cur, Here>>} ELSE S
 
 ShapeBad(e) == \E i \in Cons : e.chains[i] # <<>> /\ e.chains[i] # ChainObs(ch'[i])
 
 TOp(e) ==
-  /\ Do(e)
-  /\ bad' = IF bad # "" THEN bad ELSE Clause(e)
-  /\ h1' = AddH1(AddH1(AddH1(h1, SizeH1(e), "size"), IterH1(e), "iter"), H1Rebuild(e), "rebuild")
-  /\ drift' = IF ShapeBad(e) THEN "shape" ELSE drift
-  /\ osz' = [i \in Cons |-> e.sz[i]]
-  /\ UNCHANGED cur
+  IF skip THEN UNCHANGED <<vars, cur, base, skip, bad, drift, osz, h1>>
+  ELSE /\ Do(e)
+       /\ bad' = IF Clause(e) # "" THEN bad \cup {<<"bad_" \o Clause(e), cur, Here>>} ELSE bad
+       /\ skip' = (Clause(e) # "")
+       /\ h1' = AddH1(AddH1(AddH1(h1, SizeH1(e), "size"), IterH1(e), "iter"), H1Rebuild(e), "rebuild")
+       /\ drift' = IF ShapeBad(e) /\ ~(\E p \in drift : p[2] = cur) THEN drift \cup {<<"drift_shape", cur, Here>>} ELSE drift
+       /\ osz' = [i \in Cons |-> e.sz[i]]
+       /\ UNCHANGED <<cur, base>>
 
 TEnd(e) ==
-  /\ bad' = IF bad = "" /\ e.status # "ok" THEN "Completes" ELSE bad
-  /\ UNCHANGED <<vars, drift, osz, cur, h1>>
+  /\ bad' = IF ~skip /\ e.status # "ok" THEN bad \cup {<<"bad_Completes", cur, Here>>} ELSE bad
+  /\ UNCHANGED <<vars, drift, osz, cur, base, skip, h1>>
 
 TNext ==
   /\ l <= Len(Tr)
@@ -146,13 +151,12 @@ TNext ==
           [] e.k = "op" -> TOp(e)
           [] e.k = "end" -> TEnd(e)
   /\ l' = l + 1
-  /\ TLCSet(1, l')
-  /\ TLCSet(2, h1')
+  /\ TLCSet(1, l') /\ TLCSet(2, h1') /\ TLCSet(3, bad') /\ TLCSet(4, drift')
 
 TSpec == TInit /\ [][TNext]_tvars
 
-Holds == bad = ""
-ShapeConforms == drift = ""
-
-Post == PrintT(<<"VERIF", TLCGet(1) - 1, Len(Tr), TLCGet(2)>>)
+\* The verdict is read from the postcondition (no invariant: one pass judges every execution of the file):
+\* explained lines, total lines, H1 facets, failed clauses, shape drift.  A trace that is not explained to its end
+\* (an operation the specification cannot follow) is a defect of the script generator, not of the code.
+Post == PrintT(<<"VERIF", TLCGet(1) - 1, Len(Tr), TLCGet(2), TLCGet(3), TLCGet(4)>>)
 =============================================================================
